@@ -209,8 +209,11 @@ Section Stable.
 
   Lemma f_kubectl_apply s l : In (l_id l) Av -> Good (r_cl s) -> fstep s (fst (kubectl_apply sc s l)).
   Proof.
-    intros Hi G. pose proof G as [GI GL]. unfold kubectl_apply. cbv zeta.
-    unfold ssa_mode. rewrite dry_none, HO3. cbn [is_dry].
+    intros Hi G. pose proof G as [GI GL].
+    (* client-side apply without dry-run: no server-side PATCH, hence no fallback either *)
+    destruct (kubectl_apply_cases sc l s) as [[_ ->]|[[M _]|[M _]]];
+      [|unfold ssa_mode in M; rewrite dry_none, HO3 in M; discriminate M ..].
+    unfold csa_apply. cbv zeta. rewrite dry_none. cbn [is_dry].
     unfold get_obj. cbv zeta. destruct (faulted sc (FGet _ _)); cbn [fst]; [apply fstep_same; reflexivity|].
     destruct (find_obj (objs (r_cl s)) (l_id l)) as [c|] eqn:EF; [|exfalso; exact (GL _ Hi EF)].
     destruct (negb (patch_needed c l)); cbn [fst]; [apply fstep_same; reflexivity|].
